@@ -34,9 +34,9 @@ CHECKS = {
     ),
     "C17": dict(
         level="model_checking", engine="seq+sched",
-        technique="explicit-state BFS over report/remove/reload histories on the real ReplicateMeteImpl, compared with a reference union after every step",
+        technique="explicit-state BFS over report/remove/reload histories on the real ReplicateMeteImpl, compared with a reference union after every step; stateless DFS (deviation-bounded) over the schedules of 2-3 concurrent reports",
         text="Every history of shard reports, removals and reloads up to the depth bound over 2 tasks x 2 messages (collection and partition drop) and target sets of 1-3 shards is replayed on a fresh real ReplicateMeteImpl; in-memory maps, store contents, API read-back and the returned ready flag are compared with the reference union after each operation, and a reload is compared with the memory it replaces.",
-        note="Bounded: depth 7 (9 thorough), 2 tasks, 2 messages, target lists of 1-3 shards in and out of lexicographic order (dml_9 before dml_10); thorough adds two-shard reports. The sched part runs 2-3 concurrent reports (and 2 reports racing a removal) for one message under the schedule explorer; store calls are scheduling points whenever the implementation's lock is not held. The store is an in-memory api.ReplicateStore that serialises to JSON like both real backends; store faults are not injected (not in the property's quantifier).",
+        note="Bounded: depth 7 (9 thorough), 2 tasks, 2-3 messages (a second drop-collection message for the first task), target lists of 1-3 shards in and out of lexicographic order (dml_9 before dml_10); thorough adds two-shard reports. The sched part runs 2-3 concurrent reports (and 2 reports racing a removal) for one message under the schedule explorer; store calls are scheduling points whenever the implementation's lock is not held. The store is an in-memory api.ReplicateStore that serialises to JSON like both real backends; store faults are not injected (not in the property's quantifier).",
         parts=[part("meta", "core", "meta", "TestVerifC17Meta", shards=(8, 16), budget=(150, 900)),
                part("sched", "core", "meta", "TestVerifC17Sched", shards=(4, 8), budget=(120, 600), gomaxprocs=1)],
     ),
@@ -128,7 +128,7 @@ CHECKS = {
     ),
     "C10": dict(
         level="model_checking", engine="seq+sched",
-        technique="explicit-state BFS over create/delete/failed-create/restart histories on the real MetaCDC with invariant + differential (fresh reload) oracle in every state",
+        technique="explicit-state BFS over create/delete/failed-create/pause/restart histories on the real MetaCDC with invariant + differential (fresh reload) oracle in every state; stateless DFS (deviation-bounded) over the interleavings of two overlapping API calls at their store round trips",
         text="Every history of create (13 specification shapes), create with a store fault at the n-th call, delete and restart up to the depth bound is replayed on a fresh real MetaCDC (real etcd stores over fakeetcd); in every reached state the selections made by the real data-path and DDL-path functions are evaluated for a 3x3 universe of (database, collection) pairs against a reference, rejected requests must leave bookkeeping and store byte-identical, and the live bookkeeping must equal a fresh reload of the same store.",
         note="Bounded: depth 4 (5 thorough), one target, <= 3 tasks, universe {default, db1, db2} x {a, b, c}; 15 specification shapes (with user-role flag, name mapping, auto start disabled), pause(task) as an operation. The replication entity is the light one (recording channel manager); connectivity probe skipped through the verif hook. The concurrent part overlaps a create with the delete of another task / a failing create on the same target under the schedule explorer (store round trips are the scheduling points).",
         parts=[part("tasks", "server", ".", "TestVerifC10Tasks", shards=(16, 16), budget=(150, 1200)),
